@@ -43,7 +43,9 @@ def cases(tier, seed):
         for members, fpv in itertools.product((["fixed", "gauss"], ["gauss", "fixed"], ["fixed", "fixed"], ["fixed", "gauss", "fixed"], ["fixed+learn", "gauss"]), [False, True]):
             yield {"kind": "modellist", "depth": rnd.choice([1, 2]), "members": members, "fast_pred_var": fpv, "seed": rnd.randrange(10**6)}
         for mean, depth, dims in itertools.product([0.0, 1.2], [1, 2, 3], [1, 2]):
-            yield {"kind": "kiss", "mean": mean, "depth": depth, "dims": dims, "seed": rnd.randrange(10**6)}
+            yield {"kind": "kiss", "mean": mean, "depth": depth, "dims": dims, "late_eval": depth > 1, "seed": rnd.randrange(10**6)}
+        for mb, lik, depth, fpv in itertools.product([[], [2]], ["gauss", "fixed", "fixed+learn"], [2, 3], [False, True]):
+            yield {"kind": "single", "mbatch": mb, "pattern": "m", "lik": lik, "depth": depth, "fast_pred_var": fpv, "detach": True, "n": 4, "m": 2, "late_eval": True, "seed": rnd.randrange(10**6)}
         for pol, fpv in itertools.product(["mask", "fill"], [False, True]):
             yield {"kind": "nan_source", "policy": pol, "fast_pred_var": fpv, "n": 6, "m": 2, "seed": rnd.randrange(10**6), "hostile": True}
 
@@ -245,6 +247,7 @@ def _single(case, ctx, g):
         Xall, yall = X, y
         noise_all = fixed
         nontriv = False
+        pending = []
         for level in range(case["depth"]):
             cur_batch = list(cur.train_targets.shape[:-1])
             pat_case = dict(case)
@@ -257,13 +260,14 @@ def _single(case, ctx, g):
                 nshape = yf.shape if Xf.dim() - 1 == yf.dim() else (*Xf.shape[:-2], yf.shape[-1])
                 nz = util.rand(g, *nshape) * 0.2 + 0.03
                 kw["noise"] = nz
-            snap = _snapshot(cur, probe)
+            snap = _snapshot(cur, probe) if not (case.get("late_eval") and level > 0) else None
             try:
                 fm = cur.get_fantasy_model(Xf, yf, **kw)
             except Exception as e:
                 ctx.fail("fantasy_raises", f"get_fantasy_model raised {type(e).__name__}: {str(e)[:160]} (level {level})", "raise", exc=type(e).__name__, level=level, pattern=pat_case["pattern"])
                 break
-            _ensure_unchanged(ctx, cur, snap, probe, f"level {level}")
+            if snap is not None:
+                _ensure_unchanged(ctx, cur, snap, probe, f"level {level}")
             fb = yf.shape[:-1]
             Xall_e = Xall.expand(*fb, *Xall.shape[-2:]) if Xall.dim() - 2 < len(fb) else Xall
             Xf_e = Xf.expand(*fb, *Xf.shape[-2:])
@@ -274,9 +278,16 @@ def _single(case, ctx, g):
             # data carried by the fantasy model
             ctx.close("fantasy_train_targets", fm.train_targets, yall.expand(fm.train_targets.shape), "bit")
             ctx.close("fantasy_train_inputs", fm.train_inputs[0], Xall.expand(fm.train_inputs[0].shape), "bit")
-            ref_m, ref_c = _check_against_dense(ctx, fm, model, case["lik"], lik, Xall, yall, noise_all, xs, cls + f":L{level}", case["fast_pred_var"])
-            nontriv = nontriv or float((ref_m - src0.mean).abs().max()) > 1e-3
+            if case.get("late_eval"):
+                pending.append((fm, Xall, yall, noise_all, level))
+            else:
+                ref_m, ref_c = _check_against_dense(ctx, fm, model, case["lik"], lik, Xall, yall, noise_all, xs, cls + f":L{level}", case["fast_pred_var"])
+                nontriv = nontriv or float((ref_m - src0.mean).abs().max()) > 1e-3
             cur = fm
+        # late evaluation: every fantasy model predicts for the first time only after it has spawned its own fantasy
+        for fm, Xa, ya, na, level in pending:
+            ref_m, ref_c = _check_against_dense(ctx, fm, model, case["lik"], lik, Xa, ya, na, xs, cls + f":L{level}:late", case["fast_pred_var"])
+            nontriv = nontriv or float((ref_m - src0.mean).abs().max()) > 1e-3
     ctx.cell({k: v for k, v in case.items() if k != "seed"}, nontrivial=nontriv)
 
 
